@@ -121,7 +121,10 @@ func (r *redisStore) SetTokenResponse(ctx context.Context, sessionID string, tok
 		return err
 	}
 
-	return r.refreshExpiration(ctx, sessionID, now)
+	// The absolute timeout counts from the creation time of the session, which is only set by the
+	// first write. Let refreshExpiration read it instead of passing the time of this write, that
+	// would push the absolute limit forward on every update.
+	return r.refreshExpiration(ctx, sessionID, time.Time{})
 }
 
 func (r *redisStore) GetTokenResponse(ctx context.Context, sessionID string) (*TokenResponse, error) {
@@ -178,7 +181,10 @@ func (r *redisStore) SetAuthorizationState(ctx context.Context, sessionID string
 		return err
 	}
 
-	return r.refreshExpiration(ctx, sessionID, now)
+	// The absolute timeout counts from the creation time of the session, which is only set by the
+	// first write. Let refreshExpiration read it instead of passing the time of this write, that
+	// would push the absolute limit forward on every update.
+	return r.refreshExpiration(ctx, sessionID, time.Time{})
 }
 
 func (r *redisStore) GetAuthorizationState(ctx context.Context, sessionID string) (*AuthorizationState, error) {
